@@ -238,6 +238,11 @@ func chunkRange(req *http.Request) (start, end int64, _ error) {
 		}
 	}
 
+	if rangeOK && start == 0 && end == 0 && req.ContentLength == 1 {
+		// The wire form "0-0" stands both for no data and for the single
+		// byte at offset zero; a one-byte body settles it.
+		end = 1
+	}
 	if rangeOK && req.ContentLength >= 0 {
 		rangeLength := end - start
 		if rangeLength != req.ContentLength {
